@@ -536,6 +536,14 @@ def base_case(rnd, seed, arm):
     blobs = rnd.choice([0, 0, 1, 2])
     tgt = gen.gen_target(rnd, kinds=("gauss", "bimodal", "expedge"), d=rnd.choice([1, 2, 2, 3]), blobs=blobs)
     cfg = gen.gen_cfg(rnd, tgt["d"], vv=False)
+    # every case is executed several times here (census twin, faulted run, resumes, enumerations): keep the single execution cheap
+    # (four thorough-tier cases with 500+ particles / 7 steps exceeded the per-case timeout)
+    if cfg["n_particles"] >= 500:
+        cfg["n_particles"] = 64
+    if cfg.get("n_steps", 1) > 3:
+        cfg["n_steps"] = 3
+    if cfg.get("n_max_steps", 1) > 10:
+        cfg["n_max_steps"] = 10
     ev = gen.gen_eval(rnd, blobs=bool(blobs))
     progress = rnd.random() < 0.35
     case = dict(arm=arm, seed=seed, target=tgt, cfg=cfg, n_total=rnd.choice([64, 96, 128, 192]), save_every=rnd.choice([1, 2, 3, 5]),
